@@ -6,7 +6,7 @@
 (* the real library (TVParser validates what it did).                        *)
 EXTENDS ScpiParser, ParserVocab, Json, IOUtils
 
-CONSTANTS MaxUnits, MaxSig, MaxItems, WsVariants, NParts, Part
+CONSTANTS MaxUnits, MaxSig, MaxItems, WsVariants, KindIdx, NParts, Part
 VARIABLE sc
 LF == <<10>>
 Sc(t, s, b, ch, meta) == [table |-> t, scripts |-> s, buf |-> b, mode |-> "I", chunks |-> ch, meta |-> meta]
@@ -25,9 +25,9 @@ Lead(w) == IF w = 2 THEN <<32, 32>> ELSE <<32>>
 RECURSIVE JoinSeq(_, _)
 JoinSeq(sep, ss) == IF ss = <<>> THEN <<>> ELSE IF Len(ss) = 1 THEN ss[1] ELSE ss[1] \o sep \o JoinSeq(sep, Tail(ss))
 CmdPat == <<67, 77, 68>>
-InitC05 == \E sig \in Seqs((1..Len(C05Kinds)) \X BOOLEAN, MaxSig), its \in Seqs(1..Len(C05Items), MaxItems), w \in WsVariants, tail \in 0..Len(C05Bad) :
+InitC05 == \E sig \in Seqs((KindIdx \cap (1..Len(C05Kinds))) \X BOOLEAN, MaxSig), its \in Seqs(1..Len(C05Items), MaxItems), w \in WsVariants, tail \in 0..Len(C05Bad) :
    /\ (Len(sig) + Len(its) + w) % NParts = Part
-   /\ (tail > 0 => w = 0 /\ Len(sig) <= 1)
+   /\ (tail > 0 => w = 0 /\ Len(sig) <= 1 /\ Len(its) <= 1)
    /\ LET ops == [i \in 1..Len(sig) |-> <<"p", C05Kinds[sig[i][1]], sig[i][2]>>]
           lst == Pick(C05Items, its) \o (IF tail > 0 THEN <<C05Bad[tail]>> ELSE <<>>)
           msg == CmdPat \o (IF lst = <<>> THEN <<>> ELSE Lead(w) \o JoinSeq(Sep(w), lst)) \o (IF w = 1 /\ lst # <<>> THEN <<32>> ELSE <<>>) \o LF
